@@ -20,7 +20,7 @@ import (
 
 type mrSite struct{ pkg, fn, expr string }
 
-func funcName(fd *ast.FuncDecl) string {
+func detFuncName(fd *ast.FuncDecl) string {
 	if fd.Recv == nil || len(fd.Recv.List) == 0 {
 		return fd.Name.Name
 	}
@@ -77,7 +77,7 @@ func emitMapSites(repo string) {
 					if fd.Body == nil {
 						continue
 					}
-					name = funcName(fd)
+					name = detFuncName(fd)
 				}
 				ast.Inspect(scope, func(n ast.Node) bool {
 					rs, ok := n.(*ast.RangeStmt)
@@ -89,7 +89,7 @@ func emitMapSites(repo string) {
 						return true
 					}
 					if _, ok := t.Underlying().(*types.Map); ok {
-						count[mrSite{rel, name, exprText(p.Fset, rs.X)}]++
+						count[mrSite{rel, name, detExprText(p.Fset, rs.X)}]++
 					}
 					return true
 				})
@@ -117,7 +117,7 @@ func emitMapSites(repo string) {
 		if i == len(sites)-1 {
 			sep = ""
 		}
-		fmt.Printf("  (%s, %s, %s, %d)%s\n", leanStr(s.pkg), leanStr(s.fn), leanStr(s.expr), count[s], sep)
+		fmt.Printf("  (%s, %s, %s, %d)%s\n", detLeanStr(s.pkg), detLeanStr(s.fn), detLeanStr(s.expr), count[s], sep)
 	}
 	fmt.Println("]")
 }
